@@ -141,6 +141,7 @@ type sched struct {
 	envCost       int8
 	run           *Run
 	closed        map[uintptr]bool
+	closedRefs    []any // keeps closed channels alive so that their addresses (the keys of closed) are not reused within the execution
 	abortMsg      string
 	diverged      string
 	randHook      func() (int64, bool)
@@ -638,6 +639,7 @@ func (s *sched) runOnce(r *Run, body func(*Run), prefix []int) execResult {
 	s.teardown = false
 	s.run = r
 	s.closed = map[uintptr]bool{}
+	s.closedRefs = nil
 	s.abortMsg = ""
 	s.diverged = ""
 	s.randHook = nil
